@@ -2033,7 +2033,25 @@ dt_ddiff(dt_durtyp_t tgttyp, struct dt_d_s d1, struct dt_d_s d2, int carry)
 				tmp1 = __yd_add_d(tmp1, -1);
 			}
 		}
-		res = __yd_diff(tmp1, tmp2);
+		if (d1.typ == DT_YD && d2.typ == DT_YD) {
+			/* year-day dates keep their day of the year when years
+			 * are added, count the years the same way */
+			const bool neg = tmp1.u > tmp2.u;
+			const dt_yd_t e = !neg ? tmp1 : tmp2;
+			const dt_yd_t l = !neg ? tmp2 : tmp1;
+			int y = l.y - e.y;
+			int d = l.d - e.d;
+
+			if (d < 0) {
+				d += 365 + __leapp(e.y + --y);
+			}
+			res = dt_make_ddur(DT_DURYD, 0);
+			res.neg = neg;
+			res.yd.y = y;
+			res.yd.d = d;
+		} else {
+			res = __yd_diff(tmp1, tmp2);
+		}
 		res.fix = fix;
 		break;
 	}
